@@ -21,6 +21,10 @@ TRANSLATOR_PARTS = ["scalars_key", "defaults"]   # defaults: Props/C04_Defaults.
 TRANSLATOR_PARTS += ["evglue"]
 # ... and the transcription P / R / F functions (translate/trmatch.py -> MirGen/TrMatch.lean; Props/C04_GenTr.lean)
 TRANSLATOR_PARTS += ["trmatch"]
+# mir_eval.melody's frame metrics, validation, freq_to_voicing and constant_hop_timebase are REGENERATED from the source
+# (translate/melody.py -> lean/MirGen/Melody.lean); Props/C04_GenMelody.lean proves the generated definitions equal to the
+# hand-written melody model for all inputs; suite `gen_melody` runs them (driver op `gen.melody`) against the real functions
+TRANSLATOR_PARTS += ["melody"]
 _here = os.path.dirname(os.path.abspath(__file__))
 _props = os.path.join(os.path.dirname(os.path.dirname(_here)), "lean", "MirProofs", "Props")
 LEAN_MODULES = sorted("MirProofs.Props." + os.path.basename(f)[:-5]
@@ -198,6 +202,166 @@ def suite_gen_trmatch_prf(rng, tier, shard, nshards):
 
 
 SUITES["gen_trmatch.prf"] = suite_gen_trmatch_prf
+
+
+# ------------------------------------------------------------------------------------------------
+# suite gen_melody: the GENERATED melody definitions (lean/MirGen/Melody.lean, driver op `gen.melody`) vs the real
+# functions, and the run-time library's primitives themselves (`pymel.*`) vs NumPy on the shapes the validating
+# functions never let through — lean/MirModel/PyMel.lean is the translator's semantic assumption
+
+def _gm_available():
+    """the functions the translator emitted on THIS run (driver op `gen.melody "?"`): cases are generated for those only — a
+    function that left the subset is reported as a translator problem / broken theorems, never as a disagreeing input"""
+    import core
+    import proto
+    try:
+        outs = core.run_driver(["0 gen.melody %s\n" % proto.enc("?")])
+        v = proto.dec_line(outs[0])[1]
+    except Exception:  # noqa: BLE001
+        return set()
+    return set(v) if isinstance(v, list) else set()
+
+
+def _gm_retarget(case, extra=()):
+    """a case of a hand-model melody suite asked of the generated definition instead"""
+    fn = case.op.split(".", 1)[1]
+    info = dict(case.info or {}, op="gen.melody", fn=fn)
+    return Case("gen.melody", [fn] + list(case.args) + list(extra), case.call, tol=case.tol, tag="gen " + case.tag,
+                info=info, nontrivial=case.nontrivial, post=case.post)
+
+
+def _gm_frame_cases(rv, rc, ev, ec, tol, tag):
+    import gen
+    import proto
+    from mir_eval import melody as M
+    info = {k: proto.jsonable(v) for k, v in dict(rv=rv, rc=rc, ev=ev, ec=ec, tol=tol).items()}
+    a = (rv, rc, ev, ec)
+    nontrivial = bool(rv) and any(v > 0 for v in rv)
+    for fn, f in (("raw_pitch_accuracy", M.raw_pitch_accuracy), ("raw_chroma_accuracy", M.raw_chroma_accuracy),
+                  ("overall_accuracy", M.overall_accuracy)):
+        yield Case("gen.melody", [fn, rv, rc, ev, ec, tol],
+                   lambda f=f, a=a, tol=tol: f(*[gen.arr(x) for x in a], cent_tolerance=float(tol)),
+                   tag=tag, nontrivial=nontrivial, info=dict(info, op="gen.melody", fn=fn))
+
+
+def _gm_voicing_cases(rv, ev, tag):
+    import gen
+    import proto
+    from mir_eval import melody as M
+    info = {k: proto.jsonable(v) for k, v in dict(rv=rv, ev=ev).items()}
+    for fn, f in (("voicing_recall", M.voicing_recall), ("voicing_false_alarm", M.voicing_false_alarm),
+                  ("voicing_measures", M.voicing_measures), ("validate_voicing", M.validate_voicing)):
+        yield Case("gen.melody", [fn, rv, ev], lambda f=f, rv=rv, ev=ev: f(gen.arr(rv), gen.arr(ev)),
+                   tag=tag, nontrivial=any(v > 0 for v in rv), info=dict(info, op="gen.melody", fn=fn))
+
+
+def _gm_prim_cases(rng, tier):
+    """the primitives of lean/MirModel/PyMel.lean against NumPy: every combination of lengths 0..3 (broadcasting of a
+    length-1 operand, also against length 0; ValueError / IndexError otherwise; the empty boolean mask)"""
+    import itertools
+    import numpy as np
+    import gen
+    from fractions import Fraction as Fr
+    reps = 1 if tier == "quick" else 6
+    vals = [Fr(0), Fr(1), Fr(1, 2), Fr(-3, 4), Fr(100), Fr(5, 4)]
+    for la, lb in itertools.product(range(4), repeat=2):
+        for _ in range(reps):
+            a = [rng.choice(vals) for _ in range(la)]
+            b = [rng.choice(vals) for _ in range(lb)]
+            ma = [rng.random() < 0.5 for _ in range(la)]
+            mb = [rng.random() < 0.5 for _ in range(lb)]
+            tag = "prim lengths %s" % ("equal" if la == lb else "one" if 1 in (la, lb) else "unequal")
+            info = {"op": "pymel", "a": [str(x) for x in a], "b": [str(x) for x in b], "ma": ma, "mb": mb}
+            A, B = gen.arr(a), gen.arr(b)
+            MA, MB = np.array(ma, dtype=bool), np.array(mb, dtype=bool)
+            yield Case("pymel.vsub", [a, b], lambda A=A, B=B: A - B, tag=tag, info=info)
+            yield Case("pymel.vadd", [a, b], lambda A=A, B=B: A + B, tag=tag, info=info)
+            yield Case("pymel.vmul", [a, b], lambda A=A, B=B: A * B, tag=tag, info=info)
+            yield Case("pymel.vmulMask", [a, mb], lambda A=A, MB=MB: A * MB, tag=tag, info=info)
+            yield Case("pymel.logicalAnd", [ma, mb], lambda MA=MA, MB=MB: np.logical_and(MA, MB), tag=tag, info=info)
+            yield Case("pymel.logicalOr", [ma, mb], lambda MA=MA, MB=MB: np.logical_or(MA, MB), tag=tag, info=info)
+            yield Case("pymel.getMask", [a, mb], lambda A=A, MB=MB: A[MB], tag=tag, info=info)
+
+            def assign(A=A, MB=MB):
+                w = np.array(A, dtype=float)
+                w[MB] = 7
+                return w
+            yield Case("pymel.maskAssign", [a, mb, Fr(7)], assign, tag=tag, info=info)
+            yield Case("pymel.countTrue", [mb], lambda MB=MB: int(sum(MB)), tag=tag, info=info)
+    for num in (-2, -1, 0, 1, 2, 3, 5):
+        for stop in (Fr(0), Fr(3, 4), Fr(-1), Fr(5, 2)):
+            yield Case("pymel.linspace", [Fr(0), stop, num], lambda stop=stop, num=num: np.linspace(0, float(stop), num),
+                       tag="prim linspace", info={"op": "pymel.linspace", "stop": str(stop), "num": num})
+    special = ["nan", "inf", "-inf", Fr(0), Fr(3, 2), Fr(-2)]
+
+    def f64(x):
+        return np.float64(float(x)) if not isinstance(x, str) else np.float64(x)
+    for op, fn in (("add", lambda x, y: x + y), ("sub", lambda x, y: x - y), ("mul", lambda x, y: x * y),
+                   ("div", lambda x, y: x / y)):
+        for x in special:
+            for y in special:
+                def call(fn=fn, x=x, y=y):
+                    with np.errstate(all="ignore"):
+                        return float(fn(f64(x), f64(y)))
+                yield Case("pymel.arith", [op, x, y], call, tag="prim arith",
+                           info={"op": "pymel.arith", "fn": op, "x": str(x), "y": str(y)})
+
+
+def suite_gen_melody(rng, tier, shard, nshards):
+    avail = _gm_available()
+    for c in _suite_gen_melody(rng, tier, shard, nshards):
+        if c.op != "gen.melody" or c.args[0] in avail:
+            yield c
+
+
+def _suite_gen_melody(rng, tier, shard, nshards):
+    """frame metrics: ALL frame sequences up to length 1 (quick: 2 with a reduced alphabet) over voicings {0, 1/2, 1} and
+    cent pairs on / next to / an octave from the tolerance, every combination of lengths 0..3 for the unvalidated voicing
+    rates (broadcasting), the existing melody streams (frame measures, voicing measures, chroma folding, constant-hop
+    time base, freq_to_voicing, evaluate on the E and D streams) re-targeted at the generated definitions, and the run-time primitives against NumPy"""
+    import itertools
+    from fractions import Fraction as Fr
+    from suites import melody as MS
+    voic = [Fr(0), Fr(1, 2), Fr(1)]
+    pairs = [(Fr(0), Fr(0)), (Fr(0), Fr(3000)), (Fr(3000), Fr(0)), (Fr(3000), Fr(3040)), (Fr(3000), Fr(3050)),
+             (Fr(3000), Fr(4210)), (Fr(3000), Fr(1750))]
+    frames = [(v, r, w, e) for v in voic for (r, e) in pairs for w in voic]
+    small = [f for f in frames if f[0] != Fr(1, 2) or f[2] != Fr(1, 2)] if tier == "quick" else frames
+    seqs = [()] + [(f,) for f in frames]
+    seqs += [(f, g) for f in small[::2] for g in small[1::3]] if tier == "quick" else [(f, g) for f in frames for g in frames]
+    k = 0
+    for seq in seqs:
+        rv, rc, ev, ec = ([f[i] for f in seq] for i in range(4))
+        for tol in (Fr(50),):
+            k += 1
+            if k % nshards != shard:
+                continue
+            for c in _gm_frame_cases(rv, rc, ev, ec, tol, "all n=%d" % len(seq)):
+                yield c
+            if len(seq) <= 1 or (rc[0] == 0 and ec[0] == 0):
+                for c in _gm_voicing_cases(rv, ev, "all n=%d" % len(seq)):
+                    yield c
+    # the unvalidated voicing rates on every combination of lengths (each shard draws its own values)
+    for la, lb in itertools.product(range(4), repeat=2):
+        for _ in range(2 if tier == "quick" else 10):
+            rv = [rng.choice(voic + [Fr(0)]) for _ in range(la)]
+            ev = [rng.choice(voic) for _ in range(lb)]
+            for c in _gm_voicing_cases(rv, ev, "lengths %s" % ("equal" if la == lb else "unequal")):
+                yield c
+    for c in _gm_prim_cases(rng, tier):
+        yield c
+    # the existing melody streams asked of the generated definitions
+    for name, cap in (("melody.frame_measures", 200), ("melody.voicing_measures", 200), ("melody.chroma_dist", 100),
+                      ("melody.constant_hop_timebase", 150), ("melody.hz_conversions", 150), ("melody.evaluate", 150)):
+        for j, c in enumerate(MS.SUITES[name](rng, tier, shard, nshards)):
+            if tier == "quick" and j >= cap:
+                break
+            if c.op in ("melody.hz2cents",):
+                continue                                     # not translated (log2): stays a hand-model suite
+            yield _gm_retarget(c)
+
+
+SUITES["gen_melody"] = suite_gen_melody
 
 CHECKERS = {"documented_defaults": check_defaults}
 ORACLES = {"documented_defaults": gen_defaults}
